@@ -223,7 +223,13 @@ def run_c07(ctx):
                 if "load_error" in c:
                     ok = False
                     ctx_finding("ill-scoped/%s" % lang, "the emitted program uses an identifier that is not declared: " + c["load_error"], dict(rep, load_error=c["load_error"]))
+                # a length field that is not directly followed by its target is outside the validator's domain (decided by direct
+                # evaluation in C04): the reasons reported for such a packet are artefacts of the unsupported plan
+                far = {r["packet"] for r in c.get("reasons", []) if r["attr"] in ("target-not-adjacent", "length-plan/far")}
                 for r in c.get("reasons", []):
+                    if r["packet"] in far:
+                        ctx.count("packets_with_unsupported_length_layout")
+                        continue
                     if r["attr"] in ("missing-struct", "member-count", "missing-step", "extra-step", "skipped"):
                         ok = False
                         ctx_finding("incomplete/%s/%s/%s" % (lang, r["kind"], r["attr"]), "%s.%s: %s (expected %s, emitted %s)" % (r["packet"], r["field"], r["attr"], r["expected"], r["got"]), dict(rep, reason=r))
